@@ -182,3 +182,15 @@ MUTANTS['C08'] = [
   ('prefetch1-buffer-plus-three', [(C, "        return single_thread_prefetch(input_dataset, self.buffer_size)", "        return single_thread_prefetch(input_dataset, self.buffer_size + 3)")]),
   ('items-getitem-via-iteration', [(C, "            return self.keys()[item], self.input_dataset[item]", "            return list(self)[item]")]),
 ]
+
+MUTANTS['C20'] = [
+  ('count-without-stopiteration-correction', [(C, "            except StopIteration:\n                self.hit_count[0] -= 1\n                return", "            except StopIteration:\n                return")]),
+  ('copy-not-sharing-counters', [(C, "        new.time = self.time\n        new.hit_count = self.hit_count\n        return new", "        new.time = self.time\n        new.hit_count = list(self.hit_count)\n        return new")]),
+  ('wraps-input_datasets-but-not-input_dataset', [(C, "        if hasattr(input_dataset, 'input_dataset'):\n            input_dataset.input_dataset = ProfilingDataset(\n                input_dataset.input_dataset)", "        if hasattr(input_dataset, 'input_dataset') and False:\n            input_dataset.input_dataset = ProfilingDataset(\n                input_dataset.input_dataset)")]),
+  ('init-wraps-original-not-copy', [(C, "        input_dataset = input_dataset.copy()\n\n        # use list with one element as mutable container to share the timer", "        input_dataset = input_dataset\n\n        # use list with one element as mutable container to share the timer")]),
+  ('getitem-swallows-indexerror', [(C, "        self.hit_count[0] += 1\n        try:\n            return self.input_dataset[item]\n        except Exception:\n            self.hit_count[1] += 1\n            raise", "        self.hit_count[0] += 1\n        try:\n            return self.input_dataset[item]\n        except IndexError:\n            self.hit_count[1] += 1\n            return self.input_dataset[-1]\n        except Exception:\n            self.hit_count[1] += 1\n            raise")]),
+  ('failed-not-counted', [(C, "            except Exception:\n                self.hit_count[1] += 1\n                raise\n            finally:\n                end = self.timestamp()\n                self.time[0] += (end - start)\n            yield x", "            except Exception:\n                raise\n            finally:\n                end = self.timestamp()\n                self.time[0] += (end - start)\n            yield x")]),
+  ('len-off-by-one-when-profiled', [(C, "    def __len__(self):\n        return len(self.input_dataset)\n\n    def indexable(self):", "    def __len__(self):\n        return len(self.input_dataset) + (1 if self.hit_count[0] > 6 else 0)\n\n    def indexable(self):")]),
+  ('keyed-iteration-refused', [(C, "        if with_key:\n            it = self.input_dataset.__iter__(with_key=True)\n        else:\n            it = iter(self.input_dataset)", "        if with_key:\n            raise _ItemsNotDefined(self.__class__.__name__)\n        it = iter(self.input_dataset)")]),
+  ('getitem-counts-twice', [(C, "        # Avoid context manager: https://stackoverflow.com/a/26156031/5766934\n        self.hit_count[0] += 1", "        # Avoid context manager: https://stackoverflow.com/a/26156031/5766934\n        self.hit_count[0] += 1 + (item == 0)")]),
+]
